@@ -142,21 +142,28 @@ def t_reset_lexer(ck, ctx, only=None, channels=False):
     m, cg = ctx.model, ctx.callgraph
     eff = effects_of(ctx)
     reset = m.parser_method("set_default_flags_in_lexer")
-    rbw = RBW(m, cg, "self.lexer")
-    must, _ = rbw.summarize(reset)
-    reset_set = {p.split(".", 2)[2] for p in must}
+    # the reset function is evaluated abstractly (E3): the attributes it sets and their values - however it is written
+    start = None
+    try:
+        start = dict(ctx.lexer.start_flags)
+    except AnalysisError:
+        start = None
+    if start is not None:
+        reset_set = set(start)
+        for k, v in sorted(start.items()):
+            ck.ob("T-RESET.lexer-const", f"{reset.qual}: lexer.{k} is reset to the constant {v!r}",
+                  v is None or isinstance(v, (bool, int, str)), "the start state of the lexer must be the same constant vector for every statement", reset.loc())
+        # the reset reads nothing of the parser object (a value copied from self.* would not be a constant of the statement)
+        reads = [n for n in ast.walk(reset.node) if isinstance(n, ast.Attribute) and isinstance(n.ctx, ast.Load)
+                 and isinstance(n.value, ast.Name) and n.value.id == "self" and n.attr != "lexer"]
+        ck.ob("T-RESET.lexer-const", f"{reset.qual} reads no other attribute of the parser object", not reads,
+              f"{[ast.unparse(r) for r in reads][:3]}", reset.loc())
+    else:
+        rbw = RBW(m, cg, "self.lexer")
+        must, _ = rbw.summarize(reset)
+        reset_set = {p.split(".", 2)[2] for p in must}
+        ck.ob("T-RESET.lexer-const", f"{reset.qual}: reset vector by must-assign analysis", True, "", reset.loc())
     ck.note(f"lexer flags reset before every statement: {sorted(reset_set)}")
-    # every value written by the reset is a constant (so the start state is the same for every statement)
-    for n in ast.walk(reset.node):
-        if isinstance(n, ast.Call) and isinstance(n.func, ast.Name) and n.func.id == "setattr":
-            ck.ob("T-RESET.lexer-const", f"{reset.qual}:setattr value {ast.unparse(n.args[2])}",
-                  isinstance(n.args[2], ast.Constant), "reset value must be a constant", reset.loc(n))
-        if isinstance(n, ast.Assign):
-            for t in n.targets:
-                p = access_path(t) if isinstance(t, ast.Attribute) else None
-                if p and p.startswith("self.lexer."):
-                    ck.ob("T-RESET.lexer-const", f"{reset.qual}:{p} = {ast.unparse(n.value)}",
-                          isinstance(n.value, ast.Constant), "reset value must be a constant", reset.loc(n))
     # per-statement scope: lexer rules, actions and everything they reach
     scope = cg.reachable(ply_entry_methods(ctx))
     scope_ids = {f.id for f in scope}
